@@ -711,24 +711,80 @@ Section Writer.
     | _, _ => true
     end.
 
-  Definition accepts (o : op) : bool :=
+  Definition accepts_deferred (l : list (N * N * pobj)) : bool :=
+    forallb (fun e => match e with (n, g, o) => accepts_pobj n g o end) l.
+
+  (* [accepts st o]: the operation does not run into one of the formatter's refusals.
+     - Put while a stream is open is deferred: nothing is formatted yet;
+     - OpenStream checks the length of the chain; the dictionary is formatted when the stream is
+       written, i.e. (for the streams of this model, whose moment of starting is an input) at
+       CloseStream, together with the objects Put in between. *)
+  Definition accepts (st : state) (o : op) : bool :=
     match o with
-    | Put n g x _ => accepts_pobj n g x
+    | Put n g x _ => match strm st with Some _ => true | None => accepts_pobj n g x end
     | WriteCompressed rs os _ => accepts_members rs os
-    | OpenStream n g d fs => chain_length_ok d fs && caps_ok 0 (written_stream_dict n g d fs)
-    | Close cat info =>
-      caps_ok 0 cat && match info with Some i => caps_ok 0 i | None => true end
+    | OpenStream n g d fs => chain_length_ok d fs
+    | CloseStream _ =>
+      match strm st with
+      | Some s => caps_ok 0 (written_stream_dict (s_num s) (s_gen s) (s_dict s) (s_fs s)) &&
+                  accepts_deferred (after st)
+      | None => true
+      end
     | _ => true
     end.
 
   Definition step (st : state) (o : op) : res state :=
-    if accepts o then step0 st o else Err Other.
+    if accepts st o then step0 st o else Err Other.
+
+  (* A call that returns an error has either been refused before it touched anything - the writer is
+     as it was - or it has failed after part of an object was registered or written: the writer
+     then keeps the error, and Put, OpenStream, WriteCompressed and Close return it from then on
+     (Writer.fail).  [dirty st o]: the refusal of [o] in [st] is of the second kind.  Checked first,
+     without effect: the writer is closed; a stream is open (WriteCompressed, OpenStream); the
+     arguments of WriteCompressed (checkCompressed); the number is in use (Put, OpenStream); the
+     chain length, /Length that is no integer (OpenStream).  With effect: the formatter's refusals
+     (Put: the header is out; a *Stream: its dictionary is written at Close) and, with object
+     streams, everything WriteCompressed does after it has allocated the stream's number. *)
+  Definition is_ok {A} (r : res A) : bool := match r with Ok _ => true | Err _ => false end.
+
+  Fixpoint first_failure_is_format (rs : list (N * N)) (os : list pobj) (st : state) : bool :=
+    match rs, os with
+    | (n, g) :: rs', o :: os' =>
+      match put n g o false st with
+      | Ok st1 => if accepts_pobj n g o then first_failure_is_format rs' os' st1 else true
+      | Err _ => false
+      end
+    | _, _ => false
+    end.
+
+  Definition dirty (st : state) (o : op) : bool :=
+    negb (closed st) &&
+    match o with
+    | Put n g x big =>
+      match strm st with
+      | Some _ => false
+      | None =>
+        match x with
+        | PObj y => negb (accepts_pobj n g x) && is_ok (put_obj n g y st)
+        | PStream d data _ => is_ok (put_stream_now n g d data st)   (* the stream was opened *)
+        end
+      end
+    | WriteCompressed rs os bigs =>
+      match strm st, os with
+      | None, _ :: _ =>
+        check_compressed rs os &&
+        (if use_objstm c then negb (is_ok (step st o))
+         else first_failure_is_format rs os st)
+      | _, _ => false
+      end
+    | _ => false
+    end.
 
   Lemma step_ok st o st' : step st o = Ok st' -> step0 st o = Ok st'.
-  Proof. unfold step. destruct (accepts o); [auto | discriminate]. Qed.
+  Proof. unfold step. destruct (accepts st o); [auto | discriminate]. Qed.
 
-  Lemma step_accepts st o st' : step st o = Ok st' -> accepts o = true.
-  Proof. unfold step. destruct (accepts o); [auto | discriminate]. Qed.
+  Lemma step_accepts st o st' : step st o = Ok st' -> accepts st o = true.
+  Proof. unfold step. destruct (accepts st o); [auto | discriminate]. Qed.
 
   Lemma close_ok cat info st st' : close cat info st = Ok st' -> close0 cat info st = Ok st'.
   Proof. unfold close. destruct (close0 cat info st) as [x|[]]; auto; discriminate. Qed.
@@ -760,18 +816,31 @@ Section Writer.
     | _ => false
     end.
 
-  Fixpoint run_lenient (st : state) (ops : list op) (i : N) (refused : list N)
-    : state * list N * option (N * cls) :=
+  Fixpoint run_lenient (st : state) (ops : list op) (i : N) (refused : list N) (failed : bool)
+    : state * list N * bool * option (N * cls) :=
     match ops with
-    | [] => (st, rev refused, None)
+    | [] => (st, rev refused, failed, None)
     | o :: r =>
-      match step st o with
-      | Ok st1 => run_lenient st1 r (i + 1) refused
-      | Err Other =>
-        if resumable o then run_lenient st r (i + 1) (i :: refused)
-        else (st, rev refused, Some (i, Other))
-      | Err e => (st, rev refused, Some (i, e))
-      end
+      if failed then
+        (* the writer keeps its first error: Alloc works, nothing else *)
+        match o with
+        | Alloc =>
+          match step st o with
+          | Ok st1 => run_lenient st1 r (i + 1) refused failed
+          | Err e => (st, rev refused, failed, Some (i, e))
+          end
+        | _ =>
+          if resumable o then run_lenient st r (i + 1) (i :: refused) failed
+          else (st, rev refused, failed, Some (i, Other))
+        end
+      else
+        match step st o with
+        | Ok st1 => run_lenient st1 r (i + 1) refused failed
+        | Err Other =>
+          if resumable o then run_lenient st r (i + 1) (i :: refused) (dirty st o)
+          else (st, rev refused, failed, Some (i, Other))
+        | Err e => (st, rev refused, failed, Some (i, e))
+        end
     end.
 
   (* index of the first rejected operation and its class (for the correspondence) *)
